@@ -23,8 +23,8 @@ PROPS = {
     "C13": dict(families=["classic", "stoch", "mixed", "buffers"], kinds=CORE + "VFRL"),
     "C14": dict(families=["classic", "transport", "bigids", "mixed", "shifted"], kinds="GSOAVFXE"),
     "C15": dict(families=["classic", "transport", "bigids", "mixed"], kinds="GSOAVXE"),
-    "C16": dict(families=["classic", "transport", "buffers", "setup", "outage", "stoch", "mixed"], kinds=""),
-    "C17": dict(families=["classic", "transport", "buffers", "setup", "outage", "mixed"], kinds=""),
+    "C16": dict(families=["classic", "transport", "buffers", "setup", "outage", "stoch", "mixed"], kinds="CGX"),
+    "C17": dict(families=["classic", "transport", "buffers", "setup", "outage", "mixed", "bigids"], kinds="CGX"),
     "C18": dict(families=["classic", "transport", "mixed", "buffers"], kinds=CORE + "F"),
     "C19": dict(families=["classic", "transport", "mixed", "shifted"], kinds="GSOAFRLXE"),
     "C20": dict(families=["classic", "transport", "buffers", "stoch", "mixed"], kinds=CORE + "F"),
